@@ -55,6 +55,7 @@ var _ *cluster.Conn
 //@ props C03 C05
 //@ assume
 //@ pure
+//@ ensures [snapshot] isnil(ret1) ==> ((ret0.Metadata.Index == 0) == walSnapshotEmpty(recv))
 //@ modifies nothing
 //@ func iface:storage/wal.WAL.CreateSnapshot
 //@ props C03 C05
@@ -221,9 +222,32 @@ var _ *cluster.Conn
 //@ modifies nothing
 
 // C05: starting a node from scratch (StartNode bootstraps a new log at term 1) is only legal on storage that holds nothing;
-// a node with a past must be restarted (RestartNode). freshStorage is an abstract predicate: nothing in anndb establishes it
-// except creating a store that did not exist.
-//@ ufunc freshStorage(wal.WAL) bool
+// a node with a past must be restarted (RestartNode). The abstract state of a store is given by three uninterpreted
+// observers that the WAL's read methods report (C06 is about the store behind them).
+//@ ufunc walHardStateEmpty(wal.WAL) bool
+//@ ufunc walSnapshotEmpty(wal.WAL) bool
+//@ ufunc walLastIndex(wal.WAL) uint64
+//@ spec freshStorage(w wal.WAL) bool = walHardStateEmpty(w) && walSnapshotEmpty(w) && walLastIndex(w) == 0
+
+//@ func iface:storage/wal.WAL.InitialState
+//@ props C05
+//@ assume
+//@ pure
+//@ ensures [hardstate] isnil(ret2) ==> ((ret0.Term == 0 && ret0.Vote == 0 && ret0.Commit == 0) == walHardStateEmpty(recv))
+//@ modifies nothing
+//@ func iface:storage/wal.WAL.LastIndex
+//@ props C05
+//@ assume
+//@ pure
+//@ ensures [lastindex] isnil(ret1) ==> ret0 == walLastIndex(recv)
+//@ modifies nothing
+
+//@ func github.com/coreos/etcd/raft.IsEmptyHardState
+//@ props C05
+//@ assume
+//@ pure
+//@ ensures [def] ret == (st.Term == 0 && st.Vote == 0 && st.Commit == 0)
+//@ modifies nothing
 
 //@ func github.com/coreos/etcd/raft.StartNode
 //@ props C05
@@ -238,17 +262,51 @@ var _ *cluster.Conn
 //@ ensures [node] !isnil(ret)
 //@ modifies nothing
 
+//@ func storage/raft.isFreshStorage
+//@ props C05
+//@ safety C12
+//@ requires [storage] !isnil(storage)
+//@ ensures [C05 fresh-means-empty] isnil(ret1) && ret0 ==> freshStorage(storage)
+//@ ensures [error-means-not-fresh] !isnil(ret1) ==> !ret0
+//@ modifies nothing
+
+// bootstrap (StartNode) happens only behind a positive freshness test of this very storage
 //@ func storage/raft.startRaftNode
 //@ props C05
 //@ safety C12
-//@ requires [C05 fresh-storage] len(nodeIds) > 0 ==> freshStorage(storage)
-//@ ensures [node] isnil(ret1) && !isnil(ret0)
+//@ requires [storage] !isnil(storage)
+//@ ensures [node] isnil(ret1) ==> !isnil(ret0)
 //@ modifies nothing
 //@ loop 1
 //@ invariant [peers-local] isnil(peers) || fresh(peers)
 
-//@ func storage/raft.NewRaftGroup
-//@ props C05
+//@ func (*storage/raft.RaftTransport).addGroup
+//@ props C05 C14
 //@ assume
-//@ requires [C05 fresh-storage] len(nodeIds) > 0 ==> freshStorage(storage)
-//@ modifies *
+//@ modifies map(this.groups)
+
+//@ func storage/raft.NewRaftGroup
+//@ props C05 C14
+//@ safety C12
+//@ requires [args] transport != nil && !isnil(storage)
+//@ ensures [group] isnil(ret1) ==> ret0 != nil && fresh(ret0) && ret0.transport == transport && ret0.wal == storage && ret0.id == id
+//@ ensures [group-raft] isnil(ret1) ==> !isnil(ret0.raft)
+//@ ensures [group-ctx] isnil(ret1) ==> !isnil(ret0.ctx)
+//@ ensures [group-log] isnil(ret1) ==> ret0.log != nil
+//@ ensures [group-unregistered] isnil(ret1) ==> ret0.processFn == nil && ret0.processSnapshotFn == nil && ret0.snapshotFn == nil
+//@ modifies map(transport.groups)
+
+//@ func github.com/sirupsen/logrus.WithFields
+//@ props C05 C14
+//@ assume
+//@ ensures [entry] ret != nil
+//@ modifies nothing
+
+// the shared zero group registers its three callbacks with the raft group
+//@ func storage/raft.NewSharedGroup
+//@ props C14
+//@ safety C12
+//@ requires [group] group != nil
+//@ ensures [registered] isnil(ret1) ==> ret0 != nil && fresh(ret0) && ret0.group == group && group.processFn != nil && group.processSnapshotFn != nil && group.snapshotFn != nil
+//@ ensures [untouched] group.transport == old(group.transport) && group.raft == old(group.raft) && group.wal == old(group.wal) && group.ctx == old(group.ctx) && group.log == old(group.log)
+//@ modifies group.processFn, group.processSnapshotFn, group.snapshotFn
